@@ -148,6 +148,7 @@ receiveLoop:
 	for {
 		select {
 		case msg, ok := <-leftMessages:
+			verifJoinRecv(true, !ok)
 			if !ok {
 				leftDone = true
 				break receiveLoop
@@ -194,6 +195,7 @@ receiveLoop:
 			// TODO: Add backpressure
 
 		case msg, ok := <-rightMessages:
+			verifJoinRecv(false, !ok)
 			if !ok {
 				leftDone = false
 				break receiveLoop
@@ -281,6 +283,7 @@ receiveLoop:
 	}
 
 	for msg := range openChannel {
+		verifJoinRecv(!leftDone, false)
 		if msg.err != nil {
 			return msg.err
 		}
@@ -309,6 +312,8 @@ receiveLoop:
 			myRecordBuffer.AddRecord(msg.record)
 		}
 	}
+
+	verifJoinRecv(!leftDone, true)
 
 	if err := processRecordsUpTo(ctx, WatermarkMaxValue, oneStreamRemains); err != nil {
 		return err
